@@ -170,5 +170,105 @@ theorem header_write_switches (hE : L.WFEnc = true) (hL : L.WFMeta = true) (hrec
     have := c.newer
     split <;> omega
 
+/-- A HEADER WRITE THAT DID NOT COMPLETE (short write, write error after some bytes reached the file, torn page):
+`d` is any byte source that differs from `s1` at most inside the new header page.  If what that page now holds
+either does not verify or verifies as exactly the new record (the premise a checksum cannot give unconditionally:
+no mix of old and new header bytes verifies as something else — evaluated on every tear / short write the run
+synthesises), `open` shows exactly the previous or exactly the new state -/
+theorem incomplete_header_write_old_or_new (hE : L.WFEnc = true) (hL : L.WFMeta = true)
+    (hrec : L.pgPtr + L.metaSize ≤ pagesize) (hhdr : L.pageSize ≤ pagesize) (ov ov' : Nat → Nat) (s1 d : Src)
+    (slot : Nat) (hslot : slot = 0 ∨ slot = 1) (old new : Opened)
+    (hold1 : Holds L order pagesize ov s1 slot old) (habove : ∀ r ∈ old.runs ov, 2 ≤ r.1)
+    (hst : StoredV L pagesize ov' s1 new.view)
+    (hfl : ∃ p, decodePage L s1 pagesize new.hdr.freelistPage = .ok p ∧ p.body = .freelist new.free ∧
+      p.overflow = new.flOverflow)
+    (c : HeaderOK L order pagesize ov' s1 old new)
+    (hsz : d.size = s1.size)
+    (hout : ∀ i, i < (1 - slot) * pagesize ∨ (1 - slot) * pagesize + pagesize ≤ i → d.get i = s1.get i)
+    (hno : slotValid L order d pagesize (1 - slot) = none ∨ slotValid L order d pagesize (1 - slot) = some new.hdr)
+    (fuel : Nat) (hfo : old.view.weight ≤ fuel) (hfn : new.view.weight ≤ fuel) :
+    openFile L order pagesize fuel d = some old ∨ openFile L order pagesize fuel d = some new := by
+  have WE := Layout.WF.of L hE
+  have W := Layout.WFM.of L hL
+  have hs2 : slot < 2 := by omega
+  have hoo : 1 - (1 - slot) = slot := by omega
+  -- bytes of a run on pages ≥ 2, and of the old header page, are outside the new header page
+  have hrun : ∀ r : Nat × Nat, 2 ≤ r.1 → Src.AgreeOn s1 d (r.1 * pagesize) ((r.1 + r.2 + 1) * pagesize) := by
+    intro r hr i h1 _
+    apply hout
+    right
+    have : 2 * pagesize ≤ r.1 * pagesize := Nat.mul_le_mul_right _ hr
+    have : (1 - slot) * pagesize ≤ 1 * pagesize := Nat.mul_le_mul_right _ (by omega)
+    omega
+  have hpage : Src.AgreeOn s1 d (slot * pagesize) (slot * pagesize + pagesize) := by
+    intro i h1 h2
+    apply hout
+    rcases hslot with rfl | rfl
+    · left; simp only [Nat.zero_mul, Nat.zero_add, Nat.sub_zero, Nat.one_mul] at h1 h2 ⊢; exact h2
+    · right; simp only [Nat.one_mul, Nat.sub_self, Nat.zero_mul, Nat.zero_add] at h1 h2 ⊢; exact h1
+  have hkeep : KeepsState pagesize ov s1 d slot old := ⟨hsz, hpage, fun r hr => hrun r (habove r hr)⟩
+  have holdd : Holds L order pagesize ov d slot old := hold1.transfer L order pagesize WE W hrec hhdr hkeep
+  rcases hno with e | e
+  · left
+    refine openFile_of_holds L order pagesize ov d slot old holdd ?_ fuel hfo
+    refine openSelect_of_wins L order pagesize d slot hslot old.hdr holdd.valid holdd.ps ?_
+    rw [e]; trivial
+  · right
+    obtain ⟨p, hp, hb, hov⟩ := hfl
+    have hnew : Holds L order pagesize ov' d (1 - slot) new := by
+      refine ⟨e, c.ps, ?_, c.ok, c.root, c.next, ⟨p, ?_, hb, hov⟩⟩
+      · exact StoredV.agree L pagesize WE hhdr ov' s1 new.view d hsz hst
+          (fun r hr => hrun r (c.above r (List.mem_cons_of_mem _ hr)))
+      · refine decodePage_agree L WE s1 d pagesize _ p hhdr hsz hp (by intro m hm; rw [hb] at hm; cases hm) ?_
+        have h2 := hrun (new.hdr.freelistPage, new.flOverflow) (c.above _ List.mem_cons_self)
+        rw [hov]
+        simpa [run_bytes] using h2
+    refine openFile_of_holds L order pagesize ov' d (1 - slot) new hnew ?_ fuel hfn
+    refine openSelect_of_wins L order pagesize d (1 - slot) (by omega) new.hdr e c.ps ?_
+    rw [hoo, holdd.valid]
+    refine ⟨hold1.ps, ?_⟩
+    have := c.newer
+    split <;> omega
+
+/-- a committed file opens as the state it holds -/
+theorem committed_opens (ov : Nat → Nat) (s : Src) (slot : Nat) (hslot : slot = 0 ∨ slot = 1) (st : Opened)
+    (h : Committed L order pagesize ov s slot st) (fuel : Nat) (hf : st.view.weight ≤ fuel) :
+    openFile L order pagesize fuel s = some st :=
+  openFile_of_holds L order pagesize ov s slot st h.1
+    (openSelect_of_wins L order pagesize s slot hslot st.hdr h.1.valid h.1.ps h.2.2) fuel hf
+
+/-- the files reachable from a file `(s, slot, st, ov)` by ANY NUMBER of completed copy-on-write commits: each step
+takes the current file to some `s1` that keeps the current state's bytes and stores the next state's pages (its data
+writes, whatever they are), then writes the next header into the other slot -/
+inductive Commits : Src → Nat → Opened → (Nat → Nat) → Src → Nat → Opened → (Nat → Nat) → Prop where
+  | refl (s : Src) (slot : Nat) (st : Opened) (ov : Nat → Nat) : Commits s slot st ov s slot st ov
+  | step {s : Src} {slot : Nat} {st : Opened} {ov : Nat → Nat} {s' : Src} {slot' : Nat} {st' : Opened}
+      {ov' : Nat → Nat} (s1 : Src) (new : Opened) (ov'' : Nat → Nat) :
+      Commits s slot st ov s' slot' st' ov' →
+      KeepsState pagesize ov' s' s1 slot' st' →
+      StoredV L pagesize ov'' s1 new.view →
+      (∃ p, decodePage L s1 pagesize new.hdr.freelistPage = .ok p ∧ p.body = .freelist new.free ∧
+        p.overflow = new.flOverflow) →
+      HeaderOK L order pagesize ov'' s1 st' new →
+      Commits s slot st ov (writeMetaPage L pagesize (1 - slot') new.hdr s1) (1 - slot') new ov''
+
+/-- ALONG EVERY HISTORY OF COMMITS the file stays committed and opens as exactly the state of the last commit -/
+theorem commits_stay_committed (hE : L.WFEnc = true) (hL : L.WFMeta = true) (hrec : L.pgPtr + L.metaSize ≤ pagesize)
+    (hhdr : L.pageSize ≤ pagesize) {s : Src} {slot : Nat} {st : Opened} {ov : Nat → Nat} {s' : Src} {slot' : Nat}
+    {st' : Opened} {ov' : Nat → Nat} (hslot : slot = 0 ∨ slot = 1)
+    (h0 : Committed L order pagesize ov s slot st)
+    (hc : Commits L order pagesize s slot st ov s' slot' st' ov') :
+    (slot' = 0 ∨ slot' = 1) ∧ Committed L order pagesize ov' s' slot' st' ∧
+    ∀ fuel, st'.view.weight ≤ fuel → openFile L order pagesize fuel s' = some st' := by
+  induction hc with
+  | refl => exact ⟨hslot, h0, fun fuel hf => committed_opens L order pagesize _ _ _ hslot _ h0 fuel hf⟩
+  | step s1 new ov'' _ hk hst hfl hh ih =>
+    obtain ⟨hs', hcom, _⟩ := ih
+    have hold1 := hcom.1.transfer L order pagesize (Layout.WF.of L hE) (Layout.WFM.of L hL) hrec hhdr hk
+    obtain ⟨_, h2, _, h4⟩ := header_write_switches L order pagesize hE hL hrec hhdr _ ov'' s1 _ hs' _ new hold1
+      hcom.2.1 hst hfl hh new.view.weight (Nat.le_refl _)
+    refine ⟨by omega, ⟨h2, hh.above, h4⟩, fun fuel hf => ?_⟩
+    exact committed_opens L order pagesize _ _ _ (by omega) _ ⟨h2, hh.above, h4⟩ fuel hf
+
 end
 end Jamm
